@@ -12,7 +12,7 @@ from collections import deque
 
 import numpy as np
 
-from .. import alpha, core, gutil, harvest, lib, ref, sxvm
+from .. import alpha, core, gutil, harvest, lib, numapi, ref, sxvm
 from ..gutil import close, key_of, maxabs
 
 LEVEL = "model_checking"
@@ -155,6 +155,10 @@ def explore_config(case):
             both += len(vals) == 2
         res.add_set("comparisons_seen_both_ways", "%s:%d/%d" % (name, both, prog.n_cmp))
 
+    # ---- direct numeric use of the API, object reuse, argument mutation (see numapi) -------------------
+    selx = [e["p"] for e in alpha.reduced([e for e in elems if not rot_excluded(e["p"]) and not rot_excluded(-e["p"])], 24 if not is_dp else 10)]
+    numapi.check_group(res, B, [], selx, case, "config", ("exp", "wedge"))
+    numapi.check_algebra_arithmetic(res, B, selx, case, "config")
     # ---- one-parameter words ------------------------------------------------------------------
     depth = 3 if tier == "thorough" else 2
     base = [e for e in elems if 0 < max_angle(e["p"]) <= math.pi or (not rs and maxabs(e["p"]) > 0)]
